@@ -49,6 +49,7 @@ enum {
   MC_OPT_WM, // 1: weak-memory stale reads offered as deviations
   MC_OPT_FREE_SWITCH_COST, // cost of choosing a non-default thread when the running one blocked
   MC_OPT_TRACK_POINTS, // 1 (default): the destructor of a lifetime-tracked object is a scheduling point
+  MC_OPT_SPIN_OWN, // 1: a thread's own writes do not reset its spin-detection set (see mc_sched.cpp)
   MC_OPT_COUNT
 };
 
